@@ -210,6 +210,23 @@ impl_join_bias!(AU915);
 #[cfg(feature = "region-us915")]
 impl_join_bias!(US915);
 
+#[cfg(lora_rs_verif)]
+impl JoinChannels {
+    /// verification hook (read-only)
+    pub(crate) fn verif_snapshot(&self) -> (usize, usize, Option<usize>, [u8; 9], Option<u8>, u8) {
+        let mut data = [0u8; 9];
+        data.copy_from_slice(self.available_channels.data.as_ref());
+        (
+            self.max_retries,
+            self.num_retries,
+            self.preferred_subband.map(|s| s as usize),
+            data,
+            self.available_channels.previous,
+            self.previous_channel,
+        )
+    }
+}
+
 #[cfg(test)]
 mod test {
     use super::*;
